@@ -422,7 +422,7 @@ class NameConverter(ast.NodeTransformer):
 
         def _make_lookup_call(key, arg):
             name = (
-                "__SUBTLER_TYPE"
+                "__SUBTLER_TYPE__"
                 if self.analysis.lookup_for(key) is subtler_type
                 else "type"
             )
@@ -549,9 +549,11 @@ def closure_wrap(tree, fname, names):
 
 
 def recode(fn, ovld, recurse_sym, call_next_sym, newname):
-    ovld_mangled = f"___OVLD{ovld.id}"
-    map_mangled = f"___MAP{ovld.id}"
-    code_mangled = f"___CODE{next(_current)}"
+    # These names end with two underscores so that they are not mangled when
+    # they are used inside a class body
+    ovld_mangled = f"___OVLD{ovld.id}__"
+    map_mangled = f"___MAP{ovld.id}__"
+    code_mangled = f"___CODE{next(_current)}__"
     try:
         src = inspect.getsource(fn)
     except OSError:  # pragma: no cover
@@ -591,7 +593,7 @@ def recode(fn, ovld, recurse_sym, call_next_sym, newname):
     new_fn.__kwdefaults__ = fn.__kwdefaults__
     new_fn.__annotations__ = fn.__annotations__
     new_fn = rename_function(new_fn, newname)
-    new_fn.__globals__["__SUBTLER_TYPE"] = subtler_type
+    new_fn.__globals__["__SUBTLER_TYPE__"] = subtler_type
     new_fn.__globals__[ovld_mangled] = ovld.dispatch
     new_fn.__globals__[map_mangled] = ovld.map
     new_fn.__globals__[code_mangled] = new_fn.__code__
